@@ -616,6 +616,7 @@ def simplify_boolean_expressions(source: str) -> str:
         try:
             left = core.literal_value(node.left)
             right = core.literal_value(comparator)
+            core.literal_value(node)  # ValueError if the operands cannot be compared
         except ValueError:
             if isinstance(operator, ast.Eq) and core.unparse(node.left) == core.unparse(comparator):
                 yield node, ast.Constant(value=True, kind=None)
